@@ -48,15 +48,32 @@ func checkC07(c *Ctx, r *Report) {
 	// ---- R7.4: the recogniser consulted after every chunk must never claim a prefix of a normal
 	// reply (or a complete normal reply) as an exception: non-nil only for an exception frame
 	{
-		done := map[*ssa.Function]bool{}
-		for _, in := range installedFns(c) {
-			if in.asErr != nil && in.parse != nil && !done[in.asErr] {
-				done[in.asErr] = true
-				c02RecogniserCRC(c, r, "R7.4", in.asErr, crcIf(crc, in.rtu), !in.rtu, false)
-			}
-		}
+		installedRecognisers(c, r, "R7.4", crc, nil)
 		r.floor("R7.4", 2)
 	}
+	// ---- R7.6: once reassembled, a well-formed reply is accepted and decoded: the response
+	// parsers return exactly the encoded value for every frame the specification allows (the
+	// C02 R2.1 symbolic round trip, which includes acceptance at the minimum and maximum sizes)
+	{
+		tmp := newReport(r.Prop, r.Tier)
+		for _, pi := range packetParsers(c, "packet", false) {
+			c02RoundTrip(c, tmp, pi, crc, false)
+		}
+		r.instance("R7.6", copyItems(tmp, r, "R2.1", "R7.6")+copyItems(tmp, r, "R2.6", "R7.6"))
+		r.floor("R7.6", 20)
+	}
+	// ---- R7.7: a complete legal reply is never refused as oversized: the length limit the read
+	// loop applies is the specification's ADU size (C08 R8.4)
+	for _, spec := range []struct {
+		name   string
+		serial bool
+	}{{"Client", false}, {"SerialClient", true}} {
+		ci := analyseClient(c, spec.name, spec.serial)
+		tmp := newReport(r.Prop, r.Tier)
+		c08Client(c, tmp, ci, false)
+		r.instance("R7.7", copyItems(tmp, r, "R8.4", "R7.7", "ErrPacketTooLong is returned only when", "a frame handed to the parser has at most"))
+	}
+	r.floor("R7.7", 2)
 	// ---- R7.5: the total read timeout that bounds reassembly is a positive duration, taken from
 	// the configuration's read timeout when that is set
 	cfgStores(c, r, "R7.5", true, false)
